@@ -7,7 +7,7 @@ V = Path(__file__).resolve().parent
 CLAIMED = {
     'C06': ('Theorems over the chains regenerated from unit.py on every run (all 41 units, every ordered pair/triple, all real '
             'magnitudes): SI ratio within 1e-6, exact affine temperature maps, tangent units, exact round trip and transitivity '
-            'over R. Tie to code: translator re-run each time + the translated chains executed at Float against unit.py bit for bit.',
+            'over R; and under the standard model of floating-point arithmetic (any rounding of relative error u after every operation and literal) the round trip over the multiplicative dimensions stays within (1+u)^4 - 1: the few-ulps clause as a theorem. Tie to code: translator re-run each time + the translated chains executed at Float against unit.py bit for bit.',
             'regenerated Lean model + theorems (cases/norm_num over R), bit-exact differential run of the translated chains',
             '5 C06'),
     'C17': ('Theorems over the hand model of calc_powder_sens/get_velocity_for_temp: disabled => identity; enabled => the affine law '
